@@ -76,6 +76,9 @@ type StyleSpec struct {
 	UlColor ColorSpec `json:"ulc,omitempty"`
 	Url     string    `json:"url,omitempty"`
 	UrlID   string    `json:"urlid,omitempty"`
+	// UlOnly: the underline attribute bit is cleared again through Attributes() after Underline();
+	// the style keeps its underline style and colour (set only by generators that ask for it)
+	UlOnly bool `json:"ul_only,omitempty"`
 }
 
 // IsDefault reports whether the spec builds tcell.StyleDefault.
@@ -158,6 +161,10 @@ func (s StyleSpec) build() tcell.Style {
 	}
 	if s.UrlID != "" {
 		st = st.UrlId(s.UrlID)
+	}
+	if s.UlOnly {
+		_, _, a := st.Decompose()
+		st = st.Attributes(a &^ tcell.AttrUnderline)
 	}
 	return st
 }
